@@ -92,6 +92,22 @@ def func_ast(f):
             want_var = rest.pop(0) if code.co_flags & 0x04 else None
             want_kw = rest.pop(0) if code.co_flags & 0x08 else None
             c2 = [c for c in cands if sig(c) == (want_args, want_var, want_kwonly, want_kw)]
+            if len(c2) > 1:
+                # same signature: textually identical lambdas are interchangeable; otherwise match the compiled body
+                if len({ast.dump(c) for c in c2}) == 1:
+                    c2 = c2[:1]
+                else:
+                    def same_code(c):
+                        try:
+                            k = compile(ast.Expression(c), fn, 'eval').co_consts[0]
+                            return k.co_code == code.co_code and k.co_names == code.co_names and \
+                                [x for x in k.co_consts if not hasattr(x, 'co_code')] == \
+                                [x for x in code.co_consts if not hasattr(x, 'co_code')]
+                        except Exception:
+                            return False
+                    c3 = [c for c in c2 if same_code(c)]
+                    if c3 and len({ast.dump(c) for c in c3}) == 1:
+                        c2 = c3[:1]
             if len(c2) != 1:
                 raise Unsupported('ambiguous lambda at %s:%d' % (fn, code.co_firstlineno))
             cands = c2
